@@ -145,7 +145,7 @@ type Sim struct {
 
 func NewSim(t *Tape, cfg Config) *Sim {
 	if cfg.StepCap == 0 {
-		cfg.StepCap = 200000
+		cfg.StepCap = 1500000
 	}
 	if cfg.ClockTick == 0 {
 		cfg.ClockTick = 1000
